@@ -65,9 +65,11 @@ def synth(outbase, nuclide, process, rng, n=None, shape=None, layout="test", qui
             for j in range(n - i):
                 e2 = emin + j * step
                 p = pdf_value(shape, e1, e2, Q, par)
-                if layout != "exceeds" and e1 + e2 > Q:
-                    p = 0.0
-                if shape == "zerotail" and j == 0:
+                if e1 + e2 > Q:
+                    # a well-formed table has no density above the maximum energy sum; in the 'exceeds' layout the last
+                    # row is a single point above Q: it keeps a negligible weight because the encoder divides by the row sum
+                    p = 1e-30 if (layout == "exceeds" and n - i == 1) else 0.0
+                if j == 0 and e1 + e2 <= Q:
                     p = max(p, 1e-3)   # every row keeps a non-zero sum (the encoder divides by it)
                 f.write("%.10e %.10e %.7e\n" % (e1, e2, p))
     cwd = os.getcwd()
@@ -78,7 +80,7 @@ def synth(outbase, nuclide, process, rng, n=None, shape=None, layout="test", qui
             app.load_tab_pdf()
             app.fill_tab_cdf()
             app.fill_tab_ncdf()
-            if layout != "exceeds":
+            if layout != "exceeds":   # the p.d.f. loader demands exact zeros above Q, the encoder a non-zero last row: c.d.f. file only
                 app.save_tab_pdf(False)
             app.save_tab_ncdf(1, False)
     finally:
